@@ -19,8 +19,20 @@ func init() {
 func runC09(c *core.Ctx) {
 	p := c.P
 	c.Clause("C09.seal", func() {
-		se := c.Fn("abft.Orderer.sealEpoch")
-		nv := se.Param(0)
+		od := c.Fn("abft.Orderer.onFrameDecided")
+		// the function that seals (located by what it does: it persists the new epoch state): a helper
+		// of onFrameDecided that is handed the validators (today sealEpoch), or onFrameDecided itself
+		// when the seal is spelled in place; seals are the calls of the helper in onFrameDecided
+		se, seals := c09sealHost(od)
+		c.Need(se != nil, "onFrameDecided, or a helper it calls with the validators, persists the new epoch state (SetEpochState)")
+		inPlace := se == od
+		var nv *types.Var
+		if inPlace {
+			nv = c09sealVar(od)
+		} else {
+			nv = c09paramOfType(se, func(t types.Type) bool { return c09isValidators(p, t) })
+		}
+		c.Need(nv != nil, "the sealing function receives the callback's validators")
 		// local copy of the epoch state
 		var es *types.Var
 		for _, a := range assignments(se) {
@@ -89,15 +101,14 @@ func runC09(c *core.Ctx) {
 		c.Check(okInc && nEpochStores == 1 && okVal && okSet, "next epoch number and exactly the callback's validators are persisted", "T2 Dominates + provenance", se.Pos(), "Epoch++ and Validators = newValidators precede SetEpochState(&copy)", "the sealed epoch state is not (old epoch + 1, callback's validators)")
 		rs := se.CallsTo("abft.Orderer.resetEpochStore")
 		okRS := len(rs) == 1 && okSet
-		od := c.Fn("abft.Orderer.onFrameDecided")
 		// where the epoch store is switched on the seal path: in sealEpoch itself (switchInSeal), or in
 		// onFrameDecided after the seal call (sw), possibly inside a helper that hands the error on
 		switchInSeal := len(rs) == 1
 		var sw []c08site
 		if len(rs) == 0 && okSet {
 			sw = c08sitesOf(od, "abft.Orderer.resetEpochStore", 2)
-			sealCalls := od.CallsTo("abft.Orderer.sealEpoch")
-			if len(sw) == 1 && len(sealCalls) == 1 {
+			sealCalls := seals
+			if len(sw) == 1 && len(sealCalls) == 1 && !inPlace {
 				// the epoch handed to the switch is what sealEpoch returned, and every return of sealEpoch
 				// yields the Epoch of the state it persisted, unchanged since the SetEpochState
 				g, arg := c08arg(sw[0], 0)
@@ -155,7 +166,8 @@ func runC09(c *core.Ctx) {
 		if okSeq {
 			og, oarg := c08arg(open[0], 0)
 			cg, carg := c08arg(cb[0], 0)
-			okSeq = afterSuccess(re, drop[0].Outer(), open[0].Outer().Pt) && afterSuccess(re, open[0].Outer(), cb[0].Outer().Pt) &&
+			// (a step without an error result cannot fail: the next one only has to come after it)
+			okSeq = c08after(re, drop[0].Outer(), open[0].Outer().Pt) && c08after(re, open[0].Outer(), cb[0].Outer().Pt) &&
 				og == re && oarg != nil && varOf(re, oarg) == re.Param(0) && cg == re && carg != nil && varOf(re, carg) == re.Param(0)
 		}
 		c.Check(okSeq, "old epoch database dropped, new one opened, index notified — in that order", "T2+T4", re.Pos(), "dropEpochDB() ok -> openEpochDB(newEpoch) ok -> EpochDBLoaded(newEpoch)", "the epoch store switch is out of order or uses a different epoch")
@@ -195,15 +207,25 @@ func runC09(c *core.Ctx) {
 		// "the callback returned validators", whether tested directly or through a boolean local
 		sealed := c09lift(od, varNilFact(od, newV, false))
 		notSealed := c09lift(od, varNilFact(od, newV, true))
-		seals := od.CallsTo("abft.Orderer.sealEpoch")
-		okS := len(seals) == 1 && varOf(od, seals[0].Call.Args[0]) == newV
+		// the seal as a point of onFrameDecided: the call of the sealing helper with the callback's
+		// validators, or — spelled in place — the write of the epoch state that holds them
+		var sealPts []core.Point
+		okS := false
+		if inPlace {
+			sealPts = core.Points(sets)
+			okS = len(sets) == 1 && okVal && nv == newV
+		} else {
+			sealPts = core.Points(seals)
+			pi := c24paramIndex(se, nv)
+			okS = len(seals) == 1 && pi >= 0 && pi < len(seals[0].Call.Args) && varOf(od, seals[0].Call.Args[pi]) == newV
+		}
 		if okS {
-			okS, _ = od.GuardedBy(seals[0].Pt, sealed)
+			okS, _ = od.GuardedBy(sealPts[0], sealed)
 		}
 		c.Check(okS, "epoch is sealed exactly when the callback returned validators", "T4 GuardedBy", od.Pos(), "sealEpoch(newValidators) on the newValidators != nil edge", "sealing does not depend on the callback's validators")
 		// and that edge always seals
 		for _, e := range edgesWithFact(od, sealed) {
-			_, miss := core.PathQuery{F: od, From: blockEntry(e.B.Succs[e.Succ]), Avoid: core.PointSet(core.Points(seals)...), TargetExit: true}.Find()
+			_, miss := core.PathQuery{F: od, From: blockEntry(e.B.Succs[e.Succ]), Avoid: core.PointSet(sealPts...), TargetExit: true}.Find()
 			c.Check(!miss, "returned validators always seal the epoch", "T3 PostDominates", od.Pos(), "the newValidators != nil edge always reaches sealEpoch", "validators returned by the callback can be ignored")
 		}
 		// Reset with the new validators at FirstFrame after sealing
@@ -214,10 +236,10 @@ func runC09(c *core.Ctx) {
 		// first and resets the election once that succeeded: its parameters are bound to the arguments)
 		for _, rsite := range c09effectSites(od, func(cs *core.CallSite) bool { return cs.Name == "abft/election.Election.Reset" }, 2) {
 			r := rsite.Outer()
-			if len(seals) != 1 || len(rsite.Inner().Call.Args) != 2 || !od.CanReach(seals[0].Pt, r.Pt) {
+			if len(sealPts) != 1 || len(rsite.Inner().Call.Args) != 2 || !od.CanReach(sealPts[0], r.Pt) {
 				continue
 			}
-			seal := seals[0]
+			seal := struct{ Pt core.Point }{sealPts[0]}
 			vg, varg := c08arg(rsite, 0)
 			fg, farg := c08arg(rsite, 1)
 			if vg != od || fg == nil {
@@ -258,8 +280,17 @@ func runC09(c *core.Ctx) {
 			// returned" edge only through the seal
 			succ := false
 			if switchInSeal {
-				if ev := errVarOfCall(od, seal.Call); ev != nil {
-					succ, _ = od.GuardedBetween(seal.Pt, r.Pt, varNilFact(od, ev, true))
+				// the step of the seal that can fail, as a call of onFrameDecided: the sealing helper, or —
+				// with the seal spelled in place — the epoch store switch that follows the write
+				fallible := rs[0]
+				if !inPlace {
+					fallible = seals[0]
+				}
+				if ev := errVarOfCall(od, fallible.Call); ev != nil {
+					succ, _ = od.GuardedBetween(fallible.Pt, r.Pt, varNilFact(od, ev, true))
+				}
+				if inPlace && succ {
+					succ, _ = od.MustPassBetween(seal.Pt, []core.Point{fallible.Pt}, r.Pt)
 				}
 			} else if len(sw) == 1 {
 				succ = c09siteAfterSuccess(sw[0], rsite)
